@@ -35,11 +35,27 @@ def project(t):
     return ("other", repr(t))
 
 
+WATCHDOG_BASE = 1.0      # seconds a single input may take before it is declared non-terminating (plus 0.5 ms per byte)
+HANGS = 0
+
+
+class Hang(BaseException):
+    pass
+
+
+def _alarm(signum, frame):
+    raise Hang()
+
+
 def real_tokens(data, B, limit=None):
-    """-> (tokens, error)  error is None when the tokenizer ended with PSEOF."""
+    """-> (tokens, error)  error is None when the tokenizer ended with PSEOF; "NoProgress" when it yields tokens
+    without end, "Hang" when a single nexttoken() call does not return within the watchdog time."""
+    import signal
     p = parser_class(B)(io.BytesIO(data))
     out = []
     budget = limit if limit is not None else 4 * len(data) + 16
+    old = signal.signal(signal.SIGALRM, _alarm)
+    signal.setitimer(signal.ITIMER_REAL, WATCHDOG_BASE + len(data) / 2000.0)
     try:
         while True:
             pos, t = p.nexttoken()
@@ -49,8 +65,15 @@ def real_tokens(data, B, limit=None):
                 return out, "NoProgress"
     except PSEOF:
         return out, None
+    except Hang:
+        global HANGS
+        HANGS += 1
+        return out, "Hang"
     except BaseException as e:  # anything but end of input
         return out, type(e).__name__
+    finally:
+        signal.setitimer(signal.ITIMER_REAL, 0)
+        signal.signal(signal.SIGALRM, old)
 
 
 def model_tokens(o):
